@@ -281,6 +281,10 @@ func (b *builder) build1(v *Val) interface{} {
 		return reflect.ValueOf(b.sub(v, 0))
 	case "rvzero":
 		return reflect.Value{}
+	case "rviface":
+		// a reflect.Value of Kind Interface (an addressable interface variable)
+		x := b.sub(v, 0)
+		return reflect.ValueOf(&x).Elem()
 	case "rvfield":
 		// a reflect.Value obtained from an unexported field (CanInterface is false)
 		return reflect.ValueOf(StructA{z: b.sub(v, 0)}).Field(2)
@@ -519,6 +523,51 @@ func (b *builder) build1(v *Val) interface{} {
 			m[kv] = b.sub(v, i)
 		}
 		return m
+	case "ystringer":
+		return YieldStringer{S: v.str(in), N: int(v.I)}
+	case "tagstruct":
+		return TagStruct{A: int(v.int(in)), B: v.str(in)}
+	case "tagslice":
+		return []TagStruct{{A: int(v.int(in)), B: v.str(in)}}
+	case "rtpanic":
+		return RtPanicStringer{Idx: int(v.int(in))}
+	case "embsafe":
+		return EmbSafe{SafeString: redact.SafeString(v.str(in)), N: int(v.int(in))}
+	case "embstringer":
+		return EmbStringer{StrStringer: StrStringer(v.str(in)), N: int(v.int(in))}
+	case "pregstruct":
+		return &RegStruct{A: v.str(in), B: int(v.int(in))}
+	case "pregslice":
+		return &RegSlice{int(v.int(in)), 2}
+	case "mfi":
+		m := map[float64]interface{}{}
+		for i, k := range v.Keys {
+			m[k.float(in)] = b.sub(v, i)
+		}
+		return m
+	case "dynstruct":
+		// a struct type made at run time: its name derives from I (public)
+		t := reflect.StructOf([]reflect.StructField{
+			{Name: "F" + strconv.FormatInt(v.I&0xffffff, 10), Type: reflect.TypeOf(0)},
+			{Name: "G" + strconv.FormatInt(v.I&0xfff, 10), Type: reflect.TypeOf("")},
+			{Name: "X", Type: reflect.TypeOf((*interface{})(nil)).Elem()},
+		})
+		x := reflect.New(t).Elem()
+		x.Field(0).SetInt(3)
+		x.Field(1).SetString(v.str(in))
+		if len(v.Sub) > 0 {
+			if sv := b.sub(v, 0); sv != nil {
+				x.Field(2).Set(reflect.ValueOf(sv))
+			}
+		}
+		return x.Interface()
+	case "deep":
+		// []interface{} nested 101..130 levels deep around Sub[0]
+		var x interface{} = b.sub(v, 0)
+		for i := int64(0); i < 101+v.I%30; i++ {
+			x = []interface{}{x}
+		}
+		return x
 	case "structI":
 		return StructI{A: b.sub(v, 0), B: b.sub(v, 1)}
 	case "structA":
@@ -669,6 +718,12 @@ func runFormatterOps(st fmt.State, verb rune, ops []*compiled, inst int) {
 			fmt.Fprintf(st, op.str(inst), c.args...)
 		case "Fprint":
 			fmt.Fprint(st, c.args...)
+		case "RFprintf":
+			// the package's own F routes onto the fmt.State (a Formatter written
+			// against redact instead of fmt)
+			redact.Fprintf(st, op.str(inst), c.args...)
+		case "RFprint":
+			redact.Fprint(st, c.args...)
 		case "State":
 			io.WriteString(st, stateString(st, verb, false))
 		case "Fwd":
